@@ -16,7 +16,7 @@
  *                                           -> "ret=R early=0|1"
  * trace letters: C clock read, Y yield entered, b attempt failed (busy), g attempt succeeded.
  * Clock stream: the scripted readings, then FAR = (INT64_MAX, 999999999) for ever; an operation that
- * asks for reading number len+3 (0-based) is abandoned (longjmp) and reported as "ret=none".
+ * asks for reading number len+3 (0-based) is abandoned (longjmp) and reported as "ret=none trace=…".
  */
 #include <stdio.h>
 #include <stdlib.h>
@@ -200,7 +200,7 @@ int main(void) {
         bg_stop = 1;
         for (i = 0; i < nbg; i++) myth_join(bgt[i], 0);
         if (pmode) printf("ret=%ld live=1 | prog=%ld yields=%ld\n", ret, dp, yields);
-        else if (abandoned) printf("ret=none | prog=%ld yields=%ld\n", dp, yields);
+        else if (abandoned) printf("ret=none trace=%s | prog=%ld yields=%ld\n", trace, dp, yields);
         else printf("ret=%ld trace=%s | prog=%ld yields=%ld\n", ret, trace, dp, yields);
       }
     } else if (!strcmp(w[0], "timedlock") && n >= 3) {
@@ -221,7 +221,7 @@ int main(void) {
       hold_stop = 1;
       myth_join(h, 0);
       myth_mutex_destroy(mtx);
-      if (abandoned) printf("ret=none\n"); else printf("ret=%ld trace=%s\n", ret, trace);
+      if (abandoned) printf("ret=none trace=%s\n", trace); else printf("ret=%ld trace=%s\n", ret, trace);
     } else if (!strcmp(w[0], "timedjoin") && n >= 3) {
       struct timespec abs; long ret = -1; volatile int abandoned = 0; myth_thread_t th;
       const char * o = optval(w, n, "k"); long k = o ? strtol(o, 0, 10) : 0; void * val = 0;
@@ -235,7 +235,7 @@ int main(void) {
         in_op = 0;
       } else abandoned = 1;
       if (abandoned || ret != 0) { void * v2 = 0; myth_join(th, &v2); }
-      if (abandoned) printf("ret=none\n");
+      if (abandoned) printf("ret=none trace=%s val=-\n", trace);
       else printf("ret=%ld trace=%s val=%s\n", ret, trace, ret != 0 ? "-" : (val == (void *)(k + 4242) ? "ok" : "bad"));
     } else if (!strcmp(w[0], "wall") && n >= 3) {
       /* real clock, generous: only "not early" is judged */
